@@ -47,7 +47,7 @@ def run(chk, tier):
     validation(chk, dprog, dprog.config)
     helper_positions(chk, dprog, dprog.config)
     n = witness.record(chk, "C20", tier)
-    chk.floor("R20.2", n, 49, "compile / compile_fail witnesses for C20")
+    chk.floor("R20.2", n, 51, "compile / compile_fail witnesses for C20")
     chk.trusted += ["rustc's type checker (privacy, typestate markers) and its verdict on each witness"]
 
 
